@@ -41,25 +41,25 @@ pub fn exec_profile(id: &str) -> ExecProfile {
         },
         "C17" => ExecProfile {
             name: "exec-func-entry-exit",
-            modes: vec![Mode::FuncEntry, Mode::FuncExit, Mode::FuncExit, Mode::Before],
+            modes: vec![Mode::FuncEntry, Mode::FuncExit, Mode::FuncExit, Mode::FuncEntry, Mode::FuncExit, Mode::Before, Mode::BlockExit, Mode::SemanticAfter, Mode::BlockEntry],
             edits: false,
             rich: true,
         },
         "C18" => ExecProfile {
             name: "exec-block-entry",
-            modes: vec![Mode::BlockEntry, Mode::BlockEntry, Mode::Before],
+            modes: vec![Mode::BlockEntry, Mode::BlockEntry, Mode::BlockEntry, Mode::BlockEntry, Mode::Before, Mode::BlockExit, Mode::SemanticAfter, Mode::FuncEntry],
             edits: false,
             rich: true,
         },
         "C19" => ExecProfile {
             name: "exec-block-exit",
-            modes: vec![Mode::BlockExit, Mode::BlockExit, Mode::After],
+            modes: vec![Mode::BlockExit, Mode::BlockExit, Mode::BlockExit, Mode::BlockExit, Mode::After, Mode::BlockEntry, Mode::SemanticAfter, Mode::FuncExit],
             edits: false,
             rich: true,
         },
         _ => ExecProfile {
             name: "exec-semantic-after",
-            modes: vec![Mode::SemanticAfter, Mode::SemanticAfter, Mode::SemanticAfter, Mode::Before],
+            modes: vec![Mode::SemanticAfter, Mode::SemanticAfter, Mode::SemanticAfter, Mode::SemanticAfter, Mode::SemanticAfter, Mode::Before, Mode::BlockExit, Mode::BlockEntry, Mode::FuncExit],
             edits: false,
             rich: true,
         },
@@ -106,6 +106,7 @@ pub fn gen_exec_scenario(id: &str, run_seed: u64) -> Result<Scenario, String> {
     let mut schedule = vec![];
     let n_ops = rng.range(1, 6);
     let n_funcs = base.funcs.len();
+    let mut used: Vec<(usize, u32)> = vec![];
     for _ in 0..n_ops {
         let c = rng.below(n_clients);
         if p.edits && rng.chance(1, 4) {
@@ -142,10 +143,14 @@ pub fn gen_exec_scenario(id: &str, run_seed: u64) -> Result<Scenario, String> {
         for _ in 0..rng.range(1, 3) {
             let mode = *rng.pick(&p.modes);
             let cands = candidates(&info.funcs[fi], &base.funcs[fi].body, mode);
-            let instr = match rng.pick_opt(&cands) {
+            // one time in three a site goes where this history already instrumented something
+            // (same instruction through another mode), so that modes meet on one construct
+            let reuse: Vec<u32> = if rng.chance(1, 3) { used.iter().filter(|(f, i)| *f == fi && cands.contains(i)).map(|(_, i)| *i).collect() } else { vec![] };
+            let instr = match rng.pick_opt(&reuse).or(rng.pick_opt(&cands)) {
                 Some(i) => *i,
                 None => continue,
             };
+            used.push((fi, instr));
             let magic = st.probe_magic();
             let mut body = probe_body(magic);
             if mode == Mode::Alternate {
